@@ -43,6 +43,7 @@ type AttemptPlan struct {
 	IdleAt         int  // with IdleFor > 0: the master falls silent for IdleFor (fake clock) once IdleAt packets of the dump have been delivered, then goes on
 	IdleFor        time.Duration
 	SlowHandler    time.Duration // > 0: one handler call of the attempt takes this long (fake clock) before it returns
+	ErrWithTable   bool          // a failing table lookup returns a well-formed table together with its error
 	SkipRefused    bool          // the application skips the transaction its handler refused in the previous attempt: SetBinlogPosition(refused.NextPosition)
 	HandshakeCut   int           // handshake-fin: bytes of the greeting that still arrive
 	ErrorCalls     int           // how many times Error() is called after Stream returned (>=1)
@@ -461,10 +462,20 @@ func (r *Run) MysqlTable(name gobinlog.MysqlTableName) (gobinlog.MysqlTable, err
 	switch v.kind {
 	case 1:
 		call.Verdict = "error"
-		if v.err != nil {
-			return nil, v.err
+		e := v.err
+		if e == nil {
+			e = errMapper
 		}
-		return nil, errMapper
+		if td != nil && r.att != nil && r.att.Plan.ErrWithTable {
+			// a (value, error) API may hand back both: a table description it had
+			// cached and the error that says it could not be verified
+			st := simTable{name: name}
+			for i := range td.Cols {
+				st.cols = append(st.cols, simColumn{td.Cols[i].Name, td.Cols[i].Unsigned})
+			}
+			return st, e
+		}
+		return nil, e
 	case 2:
 		call.Verdict = fmt.Sprintf("miscount%+d", v.delta)
 	default:
